@@ -29,17 +29,22 @@ class TrioRunner(BaseRunner):
 
     def register_payload(self, payload: Callable[[], Awaitable]):
         assert self._trio_token is not None and self._submit_tasks is not None
+        # Hand over the payload without blocking the caller: the caller may be the
+        # asyncio event loop, which trio payloads wait for when they ``execute``
+        # asyncio payloads – blocking here until trio is responsive can deadlock.
         try:
-            trio.from_thread.run(
-                self._submit_tasks.send, payload, trio_token=self._trio_token
-            )
-        except (trio.RunFinishedError, trio.Cancelled):
+            self._trio_token.run_sync_soon(self._submit_payload, payload)
+        except trio.RunFinishedError:
             self._logger.warning(f"discarding payload {payload} during shutdown")
-            return
-        except RuntimeError:
-            # trio raises a bare RuntimeError when we are already in the trio thread
-            # just submit the task directly
+
+    def _submit_payload(self, payload: Callable[[], Awaitable]):
+        """Submit a payload from inside the trio event loop"""
+        assert self._submit_tasks is not None
+        try:
+            # the channel is unbounded, submitting never has to wait
             self._submit_tasks.send_nowait(payload)
+        except (trio.ClosedResourceError, trio.BrokenResourceError):
+            self._logger.warning(f"discarding payload {payload} during shutdown")
 
     def run_payload(self, payload: Callable[[], Coroutine]):
         assert self._trio_token is not None and self._submit_tasks is not None
